@@ -102,9 +102,10 @@ fn svm_err_param(e: &str) -> Option<&'static str> {
     }
 }
 
-fn base<F: Float, T>(case: &Case) -> SvmParams<F, T> {
-    let mut p = Svm::<F, T>::params().eps(F::cast(case.f("eps")));
-    if case.vals.iter().any(|v| v.name == "platt_maxiter") {
+/// applies the solver epsilon and the nested Platt parameters of `case` to an existing builder
+fn common<F: Float, T>(p: SvmParams<F, T>, case: &Case) -> SvmParams<F, T> {
+    let mut p = if case.moved(&["eps"]) { p.eps(F::cast(case.f("eps"))) } else { p };
+    if case.vals.iter().any(|v| v.name == "platt_maxiter") && case.moved(&["platt_maxiter", "platt_minstep", "platt_sigma"]) {
         p = p.with_platt_params(
             Platt::params()
                 .maxiter(case.u("platt_maxiter") as usize)
@@ -145,19 +146,27 @@ classification_spec!(svm_nu_pr_spec, "svm_nu_pr", Pr, true);
 fn classification<F: Float, T>(case: &Case, spec: &BuilderSpec, out: &mut Outcome, nu: bool, show: fn(&Svm<F, T>) -> String)
 where
     linfa_svm::SvmValidParams<F, T>: Fit<Array2<F>, Array1<bool>, SvmError, Object = Svm<F, T>>,
-    T: std::fmt::Debug,
+    T: std::fmt::Debug + Clone,
 {
     let ds = Dataset::new(xmat::<F>(), Array1::from_shape_fn(8, |i| LAB[i]));
-    let make = || {
-        let p = base::<F, T>(case);
+    let base = || Svm::<F, T>::params();
+    let set = setter(&base, |p, c| {
+        let p = common(p, c);
         if nu {
-            p.nu_weight(F::cast(case.f("nu")))
+            if c.moved(&["nu"]) {
+                p.nu_weight(F::cast(c.f("nu")))
+            } else {
+                p
+            }
+        } else if c.moved(&["c_pos", "c_neg"]) {
+            p.pos_neg_weights(F::cast(c.f("c_pos")), F::cast(c.f("c_neg")))
         } else {
-            p.pos_neg_weights(F::cast(case.f("c_pos")), F::cast(case.f("c_neg")))
+            p
         }
-    };
+    });
+    let make = || set(base(), case);
     let ops = vec![op(&make, "fit", |p| p.fit(&ds).map(|m| show(&m)).map_err(|e: SvmError| dbg(&e)), |p| p.fit(&ds).map(|m| show(&m)).map_err(|e: SvmError| dbg(&e)), |e| dbg(&e))];
-    judge(case, spec, &make, &|p| dbg(p), &|c| dbg(c), ops, out);
+    judge(case, spec, &base, &set, Some(&|p| p.clone()), &|p| dbg(p), &|c| dbg(c), ops, out);
 }
 
 // ---------------- regression ----------------
@@ -214,16 +223,24 @@ macro_rules! regression_impl {
     ($name:ident, $f:ty) => {
         fn $name(case: &Case, spec: &BuilderSpec, out: &mut Outcome, nu: bool) {
             let ds = Dataset::new(xmat::<$f>(), Array1::from_shape_fn(8, |i| Y[i] as $f));
-            let make = || {
-                let p = base::<$f, $f>(case);
+            let base = || Svm::<$f, $f>::params();
+            let set = setter(&base, |p, c| {
+                let p = common(p, c);
                 if nu {
-                    p.nu_svr(case.f("nu") as $f, case.of("c").map(|c| c as $f))
+                    if c.moved(&["nu", "c"]) {
+                        p.nu_svr(c.f("nu") as $f, c.of("c").map(|x| x as $f))
+                    } else {
+                        p
+                    }
+                } else if c.moved(&["c", "loss_eps"]) {
+                    p.c_svr(c.f("c") as $f, c.of("loss_eps").map(|x| x as $f))
                 } else {
-                    p.c_svr(case.f("c") as $f, case.of("loss_eps").map(|c| c as $f))
+                    p
                 }
-            };
+            });
+            let make = || set(base(), case);
             let ops = vec![op(&make, "fit", |p| p.fit(&ds).map(|m| dbg(&m)).map_err(|e: SvmError| dbg(&e)), |p| p.fit(&ds).map(|m| dbg(&m)).map_err(|e: SvmError| dbg(&e)), |e| dbg(&e))];
-            judge(case, spec, &make, &|p| dbg(p), &|c| dbg(c), ops, out);
+            judge(case, spec, &base, &set, Some(&|p| p.clone()), &|p| dbg(p), &|c| dbg(c), ops, out);
         }
     };
 }
